@@ -3,6 +3,7 @@ package gen
 import (
 	"encoding/base64"
 	"encoding/json"
+	"fmt"
 	"os"
 )
 
@@ -15,7 +16,10 @@ func EditJSONFile(path string, edit func(doc map[string]any)) {
 	}
 	var doc map[string]any
 	if err := json.Unmarshal(raw, &doc); err != nil {
-		panic(err)
+		// the file to be edited is no JSON document (on a correct tree every such file was written by Dump): it is
+		// left as it is - the check that follows judges what the code under test makes of it
+		fmt.Fprintf(os.Stderr, "gen.EditJSONFile: %s is not JSON (%v); left unchanged\n", path, err)
+		return
 	}
 	edit(doc)
 	out, err := json.MarshalIndent(doc, "", "  ")
